@@ -73,3 +73,17 @@ Proof.
   eexists. split; [reflexivity|]. unfold handle_of_bytes.
   destruct (len b <=? 16) eqn:L; [apply pad16_length; lia|apply md5_length].
 Qed.
+
+(* the property in one statement: outside the collision class and barring an MD5
+   coincidence of the two serialized keys, same handle <-> same key members *)
+Theorem same_handle_iff_same_key : forall t d1 d2,
+  key_type_ok t = true -> key_ids_unique t = true ->
+  key_ok t d1 = true -> key_ok t d2 = true ->
+  ~ (exists b1 b2, key_bytes t d1 = Ok b1 /\ key_bytes t d2 = Ok b2 /\ md5_coincidence b1 b2) ->
+  (instance_handle t d1 = instance_handle t d2 <-> key_vals_ty t d1 = key_vals_ty t d2).
+Proof.
+  intros t d1 d2 Hok Hu K1 K2 Hno. split; [|apply handle_eq_of_key_eq].
+  intros E. destruct (handle_total t d1 Hok Hu K1) as [h [H1 _]].
+  assert (H2 : instance_handle t d2 = Ok h) by congruence.
+  destruct (key_eq_of_handle_eq t d1 d2 h Hok Hu K1 K2 H1 H2) as [G|G]; [exact G|contradiction].
+Qed.
